@@ -36,6 +36,8 @@ def match_known(known, prop, v):
                 ok = ok and v.get("kind") == want
             elif key == "signature":
                 ok = ok and v.get("signature") == want
+            elif key == "signature_in":
+                ok = ok and v.get("signature") in want
             elif key == "grammar_contains":
                 ok = ok and want in v.get("grammar_text", "")
             else:
@@ -206,14 +208,32 @@ def run_batch_property(prop, tier, seed):
         plan=plan,
         **extra_cov,
     )
+    if prop == "C04":
+        # runtime layer: the public terminal matchers against reference matchers (engine E2)
+        from . import special
+        if not ws.build_tools(("front",)):
+            infra = infra or "front build failed"
+        else:
+            cases = 400000 if tier == "quick" else 8000000
+            j, err = special.run_front(["c04rt", "--seed", str(seed), "--cases", str(cases)])
+            if j is None:
+                infra = infra or err
+            else:
+                coverage["evaluations"] += j["evaluations"]
+                coverage["distinct_nontrivial"] += j["distinct_nontrivial"]
+                coverage["runtime_layer"] = dict(evaluations=j["evaluations"], distinct_nontrivial=j["distinct_nontrivial"], classes=j["classes"],
+                                                 rule="(text, start offset, matcher, parameters) for the eight public terminal matchers plus advance_safe/slice_until/range_until; parameters as the code generator emits them (insensitive literals ASCII-lowercased); oracle: reference matchers written with chars(); checks: same accept/reject, same consumed bytes, cursor on a char boundary, same error position and detail, no panic (cfg(peginator_verif) assertion on). Non-trivial = multi-byte character at the cursor.")
+                coverage["samples"] = coverage["samples"][:8] + j["samples"][:4]
+                violations.extend(j["violations"])
     return finish(prop, tier, seed, t0, coverage, violations, BATCH_ASSUMPTIONS, infra)
 
 
-def main(argv):
+def main(argv, locked=False):
     if not argv:
         print(USAGE)
         return 2
-    ws.lock()
+    if not locked:
+        ws.lock()
     if argv[0] == "setup":
         ok = ws.build_tools(("verif_core", "genner", "batchrt", "front"))
         return 0 if ok else 2
